@@ -110,7 +110,6 @@ func run(sc scenario) (body func(), check func(r *vrt.Result) []finding) {
 	var w *pworld.World
 	var calls []call
 	var rtCalls []call
-	var baseline, finalLive int
 	var retained []*http.Request
 	var staleCtx int
 	var dials int
@@ -146,7 +145,6 @@ func run(sc scenario) (body func(), check func(r *vrt.Result) []finding) {
 		srvConn = map[string]*simnet.Conn{}
 		staleCtx = 0
 		w = pworld.NewWorld()
-		baseline = martian.VerifLiveContexts()
 		if strings.HasPrefix(sc.Mode, "mitm") {
 			w.Proxy.SetMITM(mitmCfg)
 		}
@@ -240,7 +238,15 @@ func run(sc scenario) (body func(), check func(r *vrt.Result) []finding) {
 					}
 				}
 			}
-			if has(behOf(c.Conn, c.Seq), "rterr") {
+			if b := behOf(c.Conn, c.Seq); has(b, "rterr") {
+				// the class of the error must not matter: an upstream that hangs up (io.EOF) or times out is
+				// answered with a 502 like any other failure
+				switch {
+				case has(b, "eof"):
+					return nil, io.EOF
+				case has(b, "timeout"):
+					return nil, &net.OpError{Op: "read", Net: "tcp", Err: os.ErrDeadlineExceeded}
+				}
 				return nil, errors.New("simulated round trip failure")
 			}
 			res := pworld.SimpleResponse(req, 200, "origin says hi to "+c.Conn+"/"+c.Seq)
@@ -401,7 +407,6 @@ func run(sc scenario) (body func(), check func(r *vrt.Result) []finding) {
 			vrt.Sleep(11 * time.Minute)
 			vrt.WaitQuiescent()
 		}
-		finalLive = martian.VerifLiveContexts()
 		for _, rq := range retained {
 			if martian.NewContext(rq) != nil {
 				staleCtx++
@@ -413,7 +418,7 @@ func run(sc scenario) (body func(), check func(r *vrt.Result) []finding) {
 		for _, o := range obs {
 			vrt.Log("client %s: %v %v marker=%v eof=%v extra=%q err=%q done=%v", o.conn, o.statuses, o.warnings, o.gotMarker, o.eofAfter, o.extra, o.err, o.done)
 		}
-		vrt.Log("live=%d stale=%d", finalLive-baseline, staleCtx)
+		vrt.Log("stale=%d", staleCtx)
 	}
 	check = func(r *vrt.Result) []finding {
 		var out []finding
@@ -613,8 +618,8 @@ func run(sc scenario) (body func(), check func(r *vrt.Result) []finding) {
 				}
 			}
 		}
-		if finalLive != baseline || staleCtx != 0 {
-			add("context_leak:"+tag, "%d request-to-context associations remain after the exchanges ended (%d retained requests still resolve)", finalLive-baseline, staleCtx)
+		if staleCtx != 0 {
+			add("context_leak:"+tag, "%d requests of finished exchanges still resolve to a context (martian.NewContext)", staleCtx)
 		}
 		return out
 	}
@@ -638,7 +643,7 @@ func firstLine(s string) string {
 
 func scenarios(tier string) []scenario {
 	var out []scenario
-	inner := []string{"pass", "reqerr", "reserr", "skip", "rterr", "hijack-req", "hijack-res", "rterr+hijack-res", "skip+hijack-res", "reqerr+hijack-res", "reqerr+reserr", "mlreqerr", "mlreserr", "mlreqerr+mlreserr", "rtclone", "skip+api+skiplog", "preapi+skip"}
+	inner := []string{"pass", "reqerr", "reserr", "skip", "rterr", "hijack-req", "hijack-res", "rterr+hijack-res", "skip+hijack-res", "reqerr+hijack-res", "reqerr+reserr", "mlreqerr", "mlreserr", "mlreqerr+mlreserr", "rtclone", "skip+api+skiplog", "preapi+skip", "rterr+eof", "rterr+timeout"}
 	core := map[string]bool{"pass": true, "reqerr": true, "reserr": true, "skip": true, "rterr": true, "hijack-req": true, "hijack-res": true, "rtclone": true}
 	// plain: all behaviour sequences of length 1..2 (3 thorough)
 	maxLen := 2
@@ -846,7 +851,7 @@ func main() {
 	rep.Coverage["bound_completed"] = minBound
 	rep.Coverage["exhaustive"] = rep.Incomplete == ""
 	rep.Coverage["bounds"] = fmt.Sprintf("%d scenarios: plain mode with all behaviour sequences (17 behaviours incl. combinations: errors with one- and multi-line messages, skip round trip combined with the other context marks in both orders, a RoundTripper answering on a clone of the request) up to length %d, blind CONNECT x 6 behaviours, MITM with plaintext / TLS inside x CONNECT behaviours x inner behaviours, optional second concurrent connection; every schedule with <= %d deviations (one less for TLS scenarios; sequences of three exchanges: <= 1)", len(scen), map[string]int{"quick": 2, "thorough": 3}[tier], map[string]int{"quick": 1, "thorough": 3}[tier])
-	rep.Coverage["explanation"] = "each execution runs the real proxy.go/context.go over simnet under the gosim scheduler with recording modifiers; hook martian.VerifLiveContexts (add-only, build tag verif) counts live request-to-context associations"
+	rep.Coverage["explanation"] = "each execution runs the real proxy.go/context.go over simnet under the gosim scheduler with recording modifiers; the clause that no context remains retrievable is judged through the public API (martian.NewContext on every request the modifiers saw)"
 	rep.Assumptions = []string{"round trips go through a synchronous harness RoundTripper (which validates header fields like http.Transport)", "TLS inside the tunnel uses crypto/tls unmodified on simnet connections", "unsynchronised accesses (context/session id generation, context table) are covered by the auxiliary free-running -race pass (sampling)"}
 	raceIters := "30"
 	if tier == "thorough" {
